@@ -25,7 +25,7 @@ Proof. unfold del. apply NoDup_filter. Qed.
 
 (* what a step does: it changes exactly one name *)
 Definition step_name (l : label) : nat :=
-  match l with LCall n | LLookup n | LCreate n | LCount n | LAdd n | LFail n | LStop n _ | LReap n => n end.
+  match l with LCall n | LLookup n | LCreate n | LCount n | LAdd n _ | LFail n | LStop n _ | LReap n => n end.
 
 Lemma step_frame s l s' m : step s l = Some s' -> m <> step_name l -> s' m = s m.
 Proof.
@@ -81,7 +81,7 @@ Qed.
 Lemma pinv_step s l s' : (forall n, pinv (s n)) -> step s l = Some s' -> forall n, pinv (s' n).
 Proof.
   intros I H n. destruct (Nat.eq_dec n (step_name l)) as [->|Hne]; [|rewrite (step_frame _ _ _ _ H Hne); apply I].
-  destruct l as [k|k|k|k|k|k|k p|k]; simpl in *; pose proof (I k) as P;
+  destruct l as [k|k|k|k|k ch|k|k p|k]; simpl in *; pose proof (I k) as P;
     destruct (s k) as [nd nx rn fl fi wt hd tm c] eqn:Es; destruct P as [P1 P2 P3 P4]; simpl in *;
     inv_step H; rewrite upd_same; unfold finish; split; simpl in *; subst; simpl in *;
     auto; try lia; try discriminate;
@@ -157,7 +157,7 @@ Qed.
 Lemma ginv_step s l s' : (forall n, ginv (s n)) -> step_ok s l = true -> step s l = Some s' -> forall n, ginv (s' n).
 Proof.
   intros I Ok H n. destruct (Nat.eq_dec n (step_name l)) as [->|Hne]; [|rewrite (step_frame _ _ _ _ H Hne); apply I].
-  destruct l as [k|k|k|k|k|k|k p|k]; simpl in *; pose proof (I k) as P;
+  destruct l as [k|k|k|k|k ch|k|k p|k]; simpl in *; pose proof (I k) as P;
     destruct (s k) as [nd nx rn fl fi wt hd tm c] eqn:Es; pose proof P as P0; destruct P as [G1 G2 G3 G4 G5 G6 G7 G8]; simpl in *;
     inv_step H; rewrite upd_same; unfold finish; simpl in *; subst; simpl in *;
     try (rewrite mem_In in *);
@@ -217,7 +217,7 @@ Proof.
   destruct (Nat.eq_dec n (step_name l)) as [->|Hne].
   2:{ unfold completes in C. rewrite (step_frame _ _ _ _ H Hne) in C. lia. }
   unfold completes in C.
-  destruct l as [k|k|k|k|k|k|k q|k]; simpl in *;
+  destruct l as [k|k|k|k|k ch|k|k q|k]; simpl in *;
     destruct (s k) as [nd nx rn fl fi wt hd tm c] eqn:Es; destruct G as [G1 G2 G3 G4 G5 G6 G7 G8]; simpl in *;
     inv_step H; rewrite upd_same in *; unfold finish in *; simpl in *; try lia.
   - (* lookup found a running instance *)
@@ -271,7 +271,7 @@ Proof.
   destruct (step s l) eqn:E; [|discriminate]. eapply IH; [|exact H]. econstructor; eauto.
 Qed.
 
-Definition spawn_once (n : nat) : list label := [LCall n; LLookup n; LCreate n; LCount n; LAdd n].
+Definition spawn_once (n : nat) : list label := [LCall n; LLookup n; LCreate n; LCount n; LAdd n false].
 
 (* Kill(name) then Spawn(name) twice before the death watch has handled the Terminated message:
    both calls are handed the STOPPED instance 0, instances 1 and 2 run unregistered under the same
@@ -305,7 +305,7 @@ Proof. vm_compute. reflexivity. Qed.
 (* EXAMPLE (hypotheses satisfiable): three concurrent callers coalesce on one flight, a second
    name is spawned, the first is stopped, reaped and respawned *)
 Definition example_guarded : list label :=
-  [LCall 0; LCall 0; LLookup 0; LCall 0; LCreate 0; LCall 1; LCount 0; LLookup 1; LAdd 0; LCreate 1; LCount 1; LAdd 1;
+  [LCall 0; LCall 0; LLookup 0; LCall 0; LCreate 0; LCall 1; LCount 0; LLookup 1; LAdd 0 false; LCreate 1; LCount 1; LAdd 1 true;
    LStop 0 0; LReap 0] ++ spawn_once 0.
 Example example_guarded_ok : exists s, run_g init example_guarded = Some s /\ reach_g s /\
   handed (s 0) = [(1, RPid 1); (0, RPid 0); (0, RPid 0); (0, RPid 0)] /\
@@ -313,5 +313,18 @@ Example example_guarded_ok : exists s, run_g init example_guarded = Some s /\ re
 Proof.
   destruct (run_g init example_guarded) as [s|] eqn:E; [|vm_compute in E; discriminate].
   exists s. split; [reflexivity|]. split; [eapply run_g_reach; [constructor|exact E]|].
+  vm_compute in E. injection E as <-. repeat split; reflexivity.
+Qed.
+
+(* the SpawnChild flavour of the same race: the caller is handed its own new instance, which runs
+   but is not in the tree and is not counted *)
+Definition spawn_child_once (n : nat) : list label := [LCall n; LLookup n; LCreate n; LCount n; LAdd n true].
+Definition witness_respawn_child : list label := spawn_child_once 0 ++ [LStop 0 0] ++ spawn_child_once 0 ++ [LReap 0].
+Theorem respawn_child_refuted : exists s, run init witness_respawn_child = Some s /\ reach s /\
+  handed (s 0) = [(1, RPid 1); (0, RPid 0)] /\ runs (s 0) = [1] /\ node (s 0) = None /\
+  quiet (s 0) = true /\ cnt (s 0) = 0%Z.
+Proof.
+  destruct (run init witness_respawn_child) as [s|] eqn:E; [|vm_compute in E; discriminate].
+  exists s. split; [reflexivity|]. split; [eapply run_reach; [constructor|exact E]|].
   vm_compute in E. injection E as <-. repeat split; reflexivity.
 Qed.
